@@ -414,41 +414,52 @@ fn generate_hash_stub2(_base: &blake2b_simd::State, g: u32) -> blake2b_simd::Has
 }
 
 macro_rules! root_check {
-    ($name:ident, $n:expr, $k:expr) => {
+    ($name1:ident, $name2:ident, $n:expr, $k:expr) => {
         #[kani::proof]
         #[kani::stub(equihash::verify::generate_hash, generate_hash_stub2)]
         #[kani::stub(core::arch::x86_64::__cpuid_count, cpuid_none)]
-        #[kani::unwind(66)]
-        fn $name() {
+        #[kani::unwind(27)]
+        fn $name1() {
             const N: u32 = $n;
             const K: u32 = $k;
-            let (ipho, ho, c, cb) = hk::params(N, K).unwrap();
+            let (ipho, ho, c, _cb) = hk::params(N, K).unwrap();
             unsafe {
                 ROWS = kani::any();
                 STUB_LEN = ho as usize;
             }
             let nb = (N / 8) as usize;
-            // leaf hash of index i under the stub: the c-bit segments of its row slice
-            let seg0 = |row: &[u8; 64], i: u32, e: usize| -> u32 {
-                let start = ((i % ipho) * N / 8) as usize;
-                slice_bits(&row[start..start + nb], e, c)
-            };
-            // --- one leaf: Ok iff the leaf's first segment is zero, else NonZeroRootHash
+            // one leaf: Ok iff the leaf's first segment is zero, else NonZeroRootHash
             let i: u32 = kani::any();
             let r1 = hk::validate_indices(N, K, &[], &[], &[i]).unwrap();
             let row_i = unsafe { ROWS[0] };
-            let s_i0 = seg0(&row_i, i, 0);
+            let start = ((i % ipho) * N / 8) as usize;
+            let s_i0 = slice_bits(&row_i[start..start + nb], 0, c);
             assert!(r1 == if s_i0 == 0 { 0 } else { 4 });
             kani::cover!(r1 == 0);
             kani::cover!(r1 == 4 && s_i0 < 256); // non-zero only in the low 8 bits of the segment
-            // --- two leaves in the same hash block (so one stub row serves both)
-            unsafe { ROW_USED = 0 };
-            let j: u32 = kani::any();
+        }
+
+        #[kani::proof]
+        #[kani::stub(equihash::verify::generate_hash, generate_hash_stub2)]
+        #[kani::stub(core::arch::x86_64::__cpuid_count, cpuid_none)]
+        #[kani::unwind(27)]
+        fn $name2() {
+            const N: u32 = $n;
+            const K: u32 = $k;
+            let (ipho, ho, c, _cb) = hk::params(N, K).unwrap();
+            unsafe {
+                ROWS = kani::any();
+                STUB_LEN = ho as usize;
+            }
+            let nb = (N / 8) as usize;
+            // two leaves in the same hash block (so one stub row serves both)
+            let (i, j): (u32, u32) = (kani::any(), kani::any());
             kani::assume(i / ipho == j / ipho);
             let r2 = hk::validate_indices(N, K, &[], &[], &[i, j]).unwrap();
             let row = unsafe { ROWS[0] };
-            let (a0, b0) = (seg0(&row, i, 0), seg0(&row, j, 0));
-            let (a1, b1) = (seg0(&row, i, 1), seg0(&row, j, 1));
+            let (si, sj) = (((i % ipho) * N / 8) as usize, ((j % ipho) * N / 8) as usize);
+            let (a0, b0) = (slice_bits(&row[si..si + nb], 0, c), slice_bits(&row[sj..sj + nb], 0, c));
+            let (a1, b1) = (slice_bits(&row[si..si + nb], 1, c), slice_bits(&row[sj..sj + nb], 1, c));
             let want = if a0 != b0 {
                 1 // Collision
             } else if j < i {
@@ -468,7 +479,9 @@ macro_rules! root_check {
     };
 }
 
-//@ {"p":"C19","tier":"quick","clause":"root test through tree_validator + is_valid_solution_recursive on 1- and 2-leaf trees of (200,9): a single leaf is accepted iff its first 20-bit segment is zero; two leaves are accepted iff their first segments collide, i<j, and the xor of their second segments is zero over the WHOLE segment (all 20 bits, i.e. ceil(20/8)=3 bytes); error kinds in the documented precedence","bounds":"all u32 indices (two leaves in the same hash block), all hash rows (generate_hash stubbed: arbitrary consistent hash function)","assume":"stub: generate_hash arbitrary but consistent on <=2 blocks; trees of 1 and 2 leaves are not full solutions (reached through the verif hook)","covers":6,"t":1800,"stub":true}
-root_check!(c19_root_check_200_9, 200, 9);
-//@ {"p":"C19","tier":"thorough","clause":"same for (48,3): 12-bit segments in 2 bytes","bounds":"all indices and rows","assume":"stub: generate_hash arbitrary consistent","covers":6,"t":1800,"stub":true}
-root_check!(c19_root_check_48_3, 48, 3);
+//@ {"p":"C19","tier":"quick","name":"c19_root_1leaf_200_9","clause":"root test through tree_validator + is_valid_solution_recursive on a 1-leaf tree of (200,9): accepted iff the leaf's first 20-bit segment is zero over ALL its bits (ceil(20/8)=3 bytes), else NonZeroRootHash","bounds":"all u32 indices, all hash rows (generate_hash stubbed: arbitrary hash function)","assume":"stub: generate_hash arbitrary; a 1-leaf tree is not a full solution (reached through the verif hook)","covers":2,"t":1800,"stub":true,"unwindset":{"verify::distinct_indices.*":3,"minimal::expand_array.0":5,"minimal::expand_array.1":27,"fn:equihash::verify::tree_validator":3}}
+//@ {"p":"C19","tier":"experimental","name":"c19_root_2leaf_200_9","clause":"2-leaf tree of (200,9): accepted iff the first segments collide, i<j, and the xor of the second segments is zero over the whole segment; error kinds in the documented precedence (Collision, OutOfOrder, DuplicateIdxs, NonZeroRootHash)","bounds":"all pairs of u32 indices in the same hash block, all hash rows","assume":"stub: generate_hash arbitrary but consistent","covers":3,"t":1800,"stub":true,"unwindset":{"verify::distinct_indices.*":3,"minimal::expand_array.0":5,"minimal::expand_array.1":27,"fn:equihash::verify::tree_validator":3}}
+root_check!(c19_root_1leaf_200_9, c19_root_2leaf_200_9, 200, 9);
+//@ {"p":"C19","tier":"thorough","name":"c19_root_1leaf_48_3","clause":"same 1-leaf root test for (48,3): 12-bit segments in 2 bytes","bounds":"all indices and rows","assume":"stub: generate_hash arbitrary","covers":2,"t":1800,"stub":true,"unwindset":{"verify::distinct_indices.*":3,"minimal::expand_array.0":5,"minimal::expand_array.1":27,"fn:equihash::verify::tree_validator":3}}
+//@ {"p":"C19","tier":"experimental","name":"c19_root_2leaf_48_3","clause":"same 2-leaf test for (48,3)","bounds":"all index pairs in one block, all rows","assume":"stub: generate_hash arbitrary consistent","covers":3,"t":1800,"stub":true,"unwindset":{"verify::distinct_indices.*":3,"minimal::expand_array.0":5,"minimal::expand_array.1":27,"fn:equihash::verify::tree_validator":3}}
+root_check!(c19_root_1leaf_48_3, c19_root_2leaf_48_3, 48, 3);
